@@ -17,8 +17,8 @@ OUTSIDE = [
     'real fpylll / lzma / hashlib internals (lattice reduction havocked)',
     'symbolic batches larger than 2 keys (RSA), 2 keys (EC), 3 signatures '
     '(ECDSA, up to 49 with concrete r values)',
-    'CheckOpensslDenylist / CheckKeypairDenylist only on concrete boundary '
-    'moduli (string formatting of the modulus cannot stay symbolic)',
+    'CheckOpensslDenylist only on concrete boundary moduli; '
+    'CheckKeypairDenylist with a symbolic table key and a generator stub',
     'CheckWeakECPrivateKey: ExtendedBatchDL replaced by its result contract',
 ]
 ASSUMPTIONS = []
